@@ -19,7 +19,9 @@ RULE = (
     "state filters), best_trial, best_trials, user_attrs, system_attrs, FrozenTrial.params / "
     "user_attrs / distributions; storage-level get_trial, get_all_trials(deepcopy F/T), "
     "get_best_trial, get_all_studies, trial attribute and parameter getters) and every writer "
-    "(ask, suggest_*, report, set_user_attr, tell, enqueue_trial, add_trial, study attributes; "
+    "(ask, suggest_*, report, set_user_attr, tell, enqueue_trial, add_trial, study attributes, "
+    "optimize() of one trial whose objective reads the study and then returns a value / NaN / None "
+    "/ a non-number / a wrong arity / raises / prunes; "
     "storage-level setters), on in-memory, SQLite, cached SQLite, journal file, journal redis and "
     "gRPC-proxied storages. Every object handed out is pickled at read time; after every later "
     "write all live references are pickled again and must be byte-identical. Deep-copied results "
@@ -34,7 +36,9 @@ ASSUMPTIONS = [
 
 KINDS = ["inmemory", "sqlite", "cached_sqlite", "journal_file", "journal_redis", "grpc:inmemory", "grpc:journal_file"]
 READS = ["trials", "get_trials_nocopy", "get_trials_copy", "get_trials_states", "best_trial", "best_trials", "user_attrs", "system_attrs", "frozen_fields", "st_get_trial", "st_get_all_trials_nocopy", "st_get_all_trials_copy", "st_best", "st_studies", "st_trial_attrs", "st_trial_params"]
-WRITES = ["ask", "suggest", "report", "attr", "tell", "tell", "enqueue", "add_trial", "study_attr", "st_param", "st_iv", "st_attr", "st_state", "st_constraints", "st_constraints"]
+WRITES = ["ask", "suggest", "report", "attr", "tell", "tell", "enqueue", "add_trial", "study_attr", "st_param", "st_iv", "st_attr", "st_state", "st_constraints", "st_constraints", "optimize", "optimize"]
+# what the objective of an "optimize" write does at its end (unusable values make optimize() fail the trial with a warning)
+RETS = ["ok", "ok", "nan", "none", "str", "arity", "raise", "prune"]
 
 
 @st.composite
@@ -55,6 +59,7 @@ def case_seq(draw: Any) -> dict[str, Any]:
                     "step": draw(st.integers(0, 3)),
                     "state": draw(st.sampled_from(["COMPLETE", "COMPLETE", "PRUNED", "FAIL"])),
                     "v": float(draw(st.integers(-3, 3))),
+                    "ret": draw(st.sampled_from(RETS)),
                 }
             )
     n_obj = draw(st.sampled_from([1, 1, 2]))
@@ -168,6 +173,34 @@ def run_seq(case: dict[str, Any], ctx: Ctx) -> None:
             if w == "enqueue":
                 study.enqueue_trial({"x": 0.5}, user_attrs={"q": op["v"]})
                 return w
+            if w == "optimize":
+                # one trial through Study.optimize; the objective reads the study (what samplers,
+                # pruners and callbacks holding references do) before it ends in the generated way
+                ret = op.get("ret", "ok")
+
+                def objective(trial: Any) -> Any:
+                    trial.suggest_float("x", 0, 1)
+                    if n_obj == 1:
+                        trial.report(op["v"], op["step"])
+                    trial.set_user_attr("u", [op["v"]])
+                    hold("in_objective:get_trials_nocopy", study.get_trials(deepcopy=False), False)
+                    hold("in_objective:st_get_trial", st_.get_trial(trial._trial_id), False)
+                    if ret == "nan":
+                        return float("nan") if n_obj == 1 else [float("nan")] * n_obj
+                    if ret == "none":
+                        return None
+                    if ret == "str":
+                        return "not a number"
+                    if ret == "arity":
+                        return [1.0] * (n_obj + 1)
+                    if ret == "raise":
+                        raise ValueError("objective fails")
+                    if ret == "prune":
+                        raise optuna.TrialPruned()
+                    return op["v"] if n_obj == 1 else [op["v"]] * n_obj
+
+                study.optimize(objective, n_trials=1, catch=(ValueError,))
+                return w + ":" + ret
             if w == "add_trial":
                 study.add_trial(optuna.trial.create_trial(state=TrialState.COMPLETE, values=[op["v"]] * n_obj, params={"x": 0.25}, distributions={"x": optuna.distributions.FloatDistribution(0, 1)}, user_attrs={"a": [1, 2]}))
                 return w
